@@ -43,7 +43,8 @@ def prepare(repo, companion_file):
     tests = os.path.join(SRC, "bitar", "tests")
     with open(os.path.join(ROOT, companion_file)) as f:
         text = f.read()
-    with open(os.path.join(tests, "verif_companion.rs"), "w") as f:
+    name = "verif_" + os.path.splitext(os.path.basename(companion_file))[0]
+    with open(os.path.join(tests, name + ".rs"), "w") as f:
         f.write(text)
     inc = _gen_table_inc(SRC)
     if inc is None:
@@ -53,7 +54,7 @@ def prepare(repo, companion_file):
     return True
 
 
-def run_companion(repo, companion_file, tests, seed=1, cases=None, timeout=900):
+def run_companion(repo, companion_file, tests, seed=1, cases=None, timeout=900, stride=None):
     """-> dict(status: ok|witness|error, witnesses: [...], cases: int, wall_s, cmd, out_tail)"""
     os.makedirs(WORK, exist_ok=True)
     t0 = time.time()
@@ -70,7 +71,10 @@ def run_companion(repo, companion_file, tests, seed=1, cases=None, timeout=900):
         env = _env(seed)
         if cases:
             env["VERIF_COMPANION_CASES"] = str(cases)
-        cmd = ["cargo", "test", "--offline", "-p", "bitar", "--features", "compress", "--test", "verif_companion"]
+        if stride:
+            env["VERIF_COMPANION_STRIDE"] = str(stride)
+        name = "verif_" + os.path.splitext(os.path.basename(companion_file))[0]
+        cmd = ["cargo", "test", "--offline", "-p", "bitar", "--features", "compress", "--test", name]
         cmd += ["--"] + list(tests) + ["--nocapture", "--test-threads", "4"]
         res["cmd"] = "CARGO_TARGET_DIR=work/native/target " + " ".join(cmd)
         try:
